@@ -97,6 +97,12 @@ func upsEq(a, b []abci.ValidatorUpdate) bool {
 func (m *C01) extraReads() {
 	t := m.T
 	for i := 0; i < 3 && m.R.Chance(m.ReadsPct) && !t.Dead; i++ {
+		if m.W != nil && m.R.Chance(60) {
+			// the full read repertoire of the generator (single-record custom queries at old heights,
+			// simulate of fresh transactions of every kind, ...), issued on the twin only
+			m.W.RandomReadOn(t)
+			continue
+		}
 		switch m.R.Intn(5) {
 		case 0:
 			t.Info()
